@@ -10,6 +10,7 @@ def parseOp (j : J) : Except String Op := do
   else if k = "usectl" then pure (.useCtl (← j.nat "id") (← j.nat "dl"))
   else if k = "drop" then pure (.drop (← j.nat "id"))
   else if k = "setmiss" then pure (.setMiss (← j.nat "n"))
+  else if k = "other" then pure .other
   else throw s!"unknown op {k}"
 
 def outJ : Out → J
